@@ -4,8 +4,8 @@
 //! and once more after closing the database and reopening the collection
 //! from its *persisted* schema.
 //!
-//! SCOPE: every FieldType of grammar depth <= 2 (217 shapes) and the 1190
-//! narrow depth-3 shapes (thorough: + 1125 depth-4 shapes), one collection
+//! SCOPE: every FieldType of grammar depth <= 2 and the narrow depth-3
+//! shapes of part `roundtrip` (thorough: + its quick depth-4 shapes), one collection
 //! per shape with schema {v: T, pad: Text}, every generated valid value of T.
 
 use anda_db::collection::{Collection, CollectionConfig};
@@ -358,9 +358,13 @@ fn main() {
             run.violation(v);
         }
     }
-    run.rule(
-        "every FieldType of grammar depth <= 2 (9 leaves + 208 composites) + the 1190 narrow depth-3 shapes of part roundtrip (thorough: + its 1125 quick depth-4 shapes) x every generated valid value x zstd compress_level {0, 3} (cache off): one collection per shape with schema {v: T, pad: Text(800 compressible chars)}, Document::set_field -> Collection::add -> Collection::get, then AndaDB::close, reconnect, open_collection from the persisted schema and get again; compared in the declared variant (bit-exact); distinct = (level, type, value)",
-    );
+    run.rule(&format!(
+        "every FieldType of grammar depth <= 2 ({} leaves + {} composites) + the {} narrow depth-3 shapes of part roundtrip{} x every generated valid value x zstd compress_level {{0, 3}} (cache off): one collection per shape with schema {{v: T, pad: Text(800 compressible chars)}}, Document::set_field -> Collection::add -> Collection::get, then AndaDB::close, reconnect, open_collection from the persisted schema and get again; compared in the declared variant (bit-exact); distinct = (level, type, value)",
+        lv.l1.len(),
+        lv.l2.len(),
+        lv.l3.len(),
+        if run.tier == vcore::Tier::Thorough { format!(" + its {} quick depth-4 shapes", lv.l4.len()) } else { String::new() },
+    ));
     run.assume("InMemory object store; no indexes on the collections; the number of zstd-framed objects found in the store is reported so that 'compression on' is not vacuous");
     run.finish();
 }
